@@ -680,6 +680,11 @@ class C02Prop(HistProp):
                         if grp and body is not None:
                             if q == "get_edges" and sorted(body[1]) != sorted(grp):
                                 msgs.append("get_edges(%d,%d) differs from get_all_edges" % (u, v))
+                            elif q == "get_edges" and [list(e) for e in body[1]] != [list(e) for e in grp]:
+                                # "all parallel edges are retrievable, in insertion order": every view lists the
+                                # parallel edges of one pair in the same (insertion) order
+                                msgs.append("get_edges(%d,%d) lists the parallel edges in another order than get_all_edges: %s vs %s"
+                                            % (u, v, body[1], grp))
                             if q == "get_edge" and body[1][0] not in grp:
                                 msgs.append("get_edge(%d,%d) returns an edge that is not stored" % (u, v))
                     if code != exp:
